@@ -1,6 +1,7 @@
 PROPERTIES = ['C01', 'C02']
-BOUNDS = {
-    'quick': 'one operation from every content state: capacity CAP in {0,1,3}, pre-size NA in 0..CAP (enumerated), second vector / source block size NB in 0..CAP (enumerated); '
+BOUNDS = {  # quick additionally runs push_back / try_push_back of the last element at CAP 255 and 256 (size-type boundary)
+
+    'quick': '(plus the size-type boundary: push_back / try_push_back of the last element at CAP 255 and 256, int) one operation from every content state: capacity CAP in {0,1,3}, pre-size NA in 0..CAP (enumerated), second vector / source block size NB in 0..CAP (enumerated); '
              'element types int, POD{int,int}, NT (non-trivial copy/move/dtor -> non-trivial storage) at CAP 3, int + NT at CAP 0/1; all element values, slack bytes, '
              'object bytes before construction, positions, counts and new sizes symbolic over their full range (within the documented precondition)',
     'thorough': 'CAP in {0,1,2,3,4,5} for int, {0,1,2,3,4} for NT, {0,1,2,4} for POD; size-type boundary CAP in {254,255,256} (int) with pre-sizes CAP-1 (growing) / CAP (shrinking, try_push_back on full): the loop-free operations '
@@ -77,6 +78,12 @@ def queries(tier, prop='C01'):
                     out.append(dict(entry='q_' + e, cfg={'ELT': elt, 'CAP': cap, 'NA': na, 'NB': nb}, unwind=cap + 3,
                                     unwindset=uw(objsz + 2, cap * esz + 2), budget=600, ub=ub, nofunc=ub,
                                     solver=SOLVER.get(e, 'minisat')))
+    if tier == 'quick' and not ub:
+        # a few size-type boundary queries also in quick: the last element of a capacity-255/256 vector (where a too-narrow size type wraps)
+        for cap in (255, 256):
+            u = uw(cap * 4 + 18, cap * 4 + 2)
+            for (e, na) in (('sv_push_back_l', -1), ('iv_try_push_back_l', -1), ('iv_try_push_back_l', 0)):
+                out.append(dict(entry='q_' + e, cfg={'ELT': 0, 'CAP': cap, 'NA': cap + na, 'NB': 0}, unwind=cap + 3, unwindset=u, budget=600))
     if tier == 'thorough' and not ub:
         # size-type boundary: smallest_size_t<N> is unsigned char up to N = 254 and unsigned short from N = 255
         for cap in (254, 255, 256):
